@@ -308,7 +308,7 @@ class Gen:
     def __init__(self, rnd, long_runs=1):
         self.r = rnd
         self.n = 0
-        self.long_runs = long_runs      # 0: no long loops, 1: up to ~2000 instructions, 2: up to ~15000
+        self.long_runs = long_runs      # 0: no long loops, 1: up to ~2000 instructions, 2: up to ~15000, 3: up to ~50000
         self.vectors = []               # data words (jmp (vec) targets) to place behind the brk of the test being built
 
     def fresh(self, p):
@@ -541,7 +541,7 @@ class Gen:
             li = self.fresh("li")
             inner = [insn("ldy", "imm", self.lit(k)), label(li), insn("dey"), insn("bne", "dir", ident(li))]
             if r.random() < 0.6:
-                j = r.randrange(2, 28 if big else 5)
+                j = r.randrange(2, (28 if self.long_runs == 2 else 95) if big else 5)
                 lo = self.fresh("lo")
                 body = [label(lo)] + inner
                 if r.random() < 0.6:
